@@ -27,7 +27,14 @@ impl Sandbox {
         } else {
             std::env::temp_dir()
         };
-        let root = base.join(format!("gv-{}-{}-{}", std::process::id(), tag, n));
+        // fixed-width name: the length of the sandbox path must not depend on the worker index,
+        // the process id or how many sandboxes came before (file sizes, hence syscall counts,
+        // depend on the length of paths embedded in artifacts)
+        let mut t: String = tag.chars().take(10).collect();
+        while t.len() < 10 {
+            t.push('_');
+        }
+        let root = base.join(format!("gv-{:07}-{}-{:06}", std::process::id() % 10_000_000, t, n % 1_000_000));
         let _ = std::fs::remove_dir_all(&root);
         std::fs::create_dir_all(&root)
             .map_err(|e| anyhow::anyhow!("sandbox unavailable at {}: {e}", root.display()))?;
